@@ -714,20 +714,24 @@ func (e *Eng) stage1State() {
 		e.add("stage1#carried-state", "(*internalParsedJson).findStructuralIndices", props, false, "function not found")
 		return
 	}
-	want := map[string]int64{"prev_iter_ends_odd_backslash": 0, "prev_iter_inside_quote": 0, "error_mask": 0, "prev_iter_ends_pseudo_pred": 1, "carried": 0}
+	// by position in the kernel's parameter list (names of the driver's locals are free to change):
+	// (buf, &odd_backslash, &inside_quote, &error_mask, &pseudo_pred, indexes, &length, &carried, &position, ndjson)
+	wantPos := map[int]int64{1: 0, 2: 0, 3: 0, 4: 1, 7: 0}
+	posName := map[int]string{1: "odd-backslash carry", 2: "inside-quote carry", 3: "error mask", 4: "pseudo-structural predecessor", 7: "flatten carry"}
 	calls := find(fn, or(isCall("find_structural_bits_in_slice"), isCall("find_structural_bits_in_slice_avx512")))
 	ok, detail := len(calls) > 0, fmt.Sprintf("%d kernel calls", len(calls))
 	seen := map[string]bool{}
 	for _, c := range calls {
 		call := c.b.Instrs[c.i].(*ssa.Call)
-		for _, a := range call.Call.Args {
-			al, isAl := a.(*ssa.Alloc)
-			if !isAl {
+		for k, a := range call.Call.Args {
+			w, tracked := wantPos[k]
+			if !tracked {
 				continue
 			}
-			name := al.Comment
-			w, tracked := want[name]
-			if !tracked {
+			name := posName[k]
+			al, isAl := a.(*ssa.Alloc)
+			if !isAl {
+				ok, detail = false, name+" is not passed as the address of a local variable at "+e.pos(call)
 				continue
 			}
 			seen[name] = true
@@ -752,7 +756,7 @@ func (e *Eng) stage1State() {
 			}
 		}
 	}
-	for name := range want {
+	for _, name := range posName {
 		if !seen[name] && ok {
 			ok, detail = false, "state variable "+name+" is not passed to the kernels by address"
 		}
@@ -1057,7 +1061,7 @@ func (e *Eng) reviewedGlobals() {
 		}
 		f.Close()
 	}
-	var extra, missing []string
+	var extra, missing, accepted []string
 	have := map[string]bool{}
 	for name, m := range e.pkg.Members {
 		g, ok := m.(*ssa.Global)
@@ -1072,6 +1076,12 @@ func (e *Eng) reviewedGlobals() {
 		}
 		have[name] = true
 		if !want[name] {
+			// a new variable is accepted without review only if it is a plain value table (no pointers, slices, maps,
+			// channels, functions, interfaces, sync objects); stores to it at run time are the business of global#<name>
+			if pureValue(g.Type().(*types.Pointer).Elem(), 0) {
+				accepted = append(accepted, name)
+				continue
+			}
 			extra = append(extra, name)
 		}
 	}
@@ -1083,7 +1093,7 @@ func (e *Eng) reviewedGlobals() {
 	sort.Strings(extra)
 	sort.Strings(missing)
 	e.add("globals#reviewed-set", "package", []string{"C20", "C15"}, len(want) > 0 && len(extra) == 0,
-		fmt.Sprintf("%d package-level variables reviewed; not in the reviewed set: %v; listed but gone: %v", len(want), extra, missing))
+		fmt.Sprintf("%d package-level variables reviewed; not in the reviewed set: %v; new plain value tables accepted: %v; listed but gone: %v", len(want), extra, accepted, missing))
 }
 
 // compressModeComplete (C11, C15): CompressMode assigns every configuration field for every mode, so a Serializer's
@@ -1147,7 +1157,7 @@ func (e *Eng) ndstreamErrors() {
 				}
 			}
 		}
-		if tested == nil || !ssaSame(tested, arg, 0) {
+		if tested == nil || !dependsOn(arg, tested, 0) {
 			ok = false
 			detail = "queueError at " + e.pos(c) + " is not given the error value whose nil test guards it"
 		}
@@ -1179,4 +1189,61 @@ func (e *Eng) ndstreamErrors() {
 		}
 	}
 	e.add("reader#chunk-buffer-per-worker", "ParseNDStream.reader", []string{"C09", "C20"}, ok, detail)
+}
+
+// dependsOn: v is the value w or is computed from it (wrapped error, converted, passed through a call)
+func dependsOn(v, w ssa.Value, depth int) bool {
+	if ssaSame(v, w, 0) {
+		return true
+	}
+	if depth > 6 {
+		return false
+	}
+	in, ok := v.(ssa.Instruction)
+	if !ok {
+		return false
+	}
+	for _, op := range in.Operands(nil) {
+		if *op != nil && dependsOn(*op, w, depth+1) {
+			return true
+		}
+	}
+	// values stored into a slice / struct that v reads (variadic arguments of fmt.Errorf): follow stores into allocations
+	if sl, isSl := v.(*ssa.Slice); isSl {
+		if al, isAl := sl.X.(*ssa.Alloc); isAl {
+			for _, r := range *al.Referrers() {
+				if ia, isIA := r.(*ssa.IndexAddr); isIA {
+					for _, r2 := range *ia.Referrers() {
+						if st, isSt := r2.(*ssa.Store); isSt && dependsOn(st.Val, w, depth+1) {
+							return true
+						}
+					}
+				}
+			}
+		}
+	}
+	return false
+}
+
+func pureValue(t types.Type, depth int) bool {
+	if depth > 6 {
+		return false
+	}
+	switch u := t.Underlying().(type) {
+	case *types.Basic:
+		return u.Kind() != types.UnsafePointer
+	case *types.Array:
+		return pureValue(u.Elem(), depth+1)
+	case *types.Struct:
+		if n, ok := t.(*types.Named); ok && n.Obj().Pkg() != nil && n.Obj().Pkg().Path() == "sync" {
+			return false
+		}
+		for i := 0; i < u.NumFields(); i++ {
+			if !pureValue(u.Field(i).Type(), depth+1) {
+				return false
+			}
+		}
+		return true
+	}
+	return false
 }
